@@ -204,6 +204,7 @@ func execA(c caseA) (st stats, err error) {
 		return st, fmt.Errorf("SETUP: put: %v", pr)
 	}
 	vid := pr.Header.Get("x-amz-version-id")
+	newerVid := "" // the unprotected version on top of the protected one (cases with Older), until it is deleted
 	vq := func(q []s3c.KV) []s3c.KV {
 		if c.Versioned && vid != "" {
 			return append(q, s3c.KV{K: "versionId", V: vid})
@@ -212,9 +213,11 @@ func execA(c caseA) (st stats, err error) {
 	}
 	if c.Older && c.Versioned && vid != "" {
 		// the version that will be protected is not the current one: an unprotected newer version sits on top of it
-		if r := root.MustCall("PUT", path, nil, nil, []byte("a newer, unprotected version")); !r.OK() {
+		r := root.MustCall("PUT", path, nil, nil, []byte("a newer, unprotected version"))
+		if !r.OK() {
 			return st, fmt.Errorf("SETUP: newer version: %v", r)
 		}
+		newerVid = r.Header.Get("x-amz-version-id")
 	}
 	ms := &state{}
 	now := time.Now()
@@ -317,6 +320,23 @@ func execA(c caseA) (st stats, err error) {
 				r, err = cl.Call("DELETE", path, s3c.Q("versionId", junk), hdr, nil)
 			}
 			destructive = true
+		case "delnewer":
+			// the unprotected version on top of the protected one is deleted by its id - which is allowed and makes the
+			// protected version the current one: it keeps its protection (every later step is judged as before)
+			if newerVid == "" {
+				continue
+			}
+			nr, e := cl.Call("DELETE", path, s3c.Q("versionId", newerVid), hdr, nil)
+			if e != nil {
+				return st, fmt.Errorf("SETUP: transport: %v", e)
+			}
+			if nr.OK() {
+				newerVid = ""
+			}
+			if e := intact(where); e != nil {
+				return st, e
+			}
+			continue
 		case "delver":
 			if !c.Versioned || vid == "" {
 				continue
@@ -342,6 +362,11 @@ func execA(c caseA) (st stats, err error) {
 				cl.Call("PUT", "/"+b+"/"+dk, nil, nil, []byte("unprotected"))
 				root.Call("PUT", "/"+b+"/"+dk, s3c.Q("retention", ""), []s3c.KV{{K: "x-amz-bypass-governance-retention", V: "true"}}, retXML("GOVERNANCE", until))
 				list = append(list, s3c.KV{K: dk})
+			}
+			if newerVid != "" && kv.V != "" && o.Until%3 != 0 {
+				// two versions of the one key in one request, the unprotected one first: a decision taken for a key is
+				// not a decision for all its versions
+				list = append(list, s3c.KV{K: key, V: newerVid})
 			}
 			list = append(list, kv)
 			if o.Pos >= 3 {
@@ -479,7 +504,7 @@ func describe(s *state) string {
 func opGen() *rapid.Generator[op] {
 	return rapid.Custom(func(t *rapid.T) op {
 		var o op
-		o.Kind = rapid.SampledFrom([]string{"put", "copy", "mpu", "delete", "delver", "delany", "batch", "delbucket", "retention", "retention", "holdoff", "holdon", "lockcfg", "suspend", "policy"}).Draw(t, "kind")
+		o.Kind = rapid.SampledFrom([]string{"put", "copy", "mpu", "delete", "delver", "delnewer", "delany", "batch", "batch", "delbucket", "retention", "retention", "holdoff", "holdon", "lockcfg", "suspend", "policy"}).Draw(t, "kind")
 		o.Caller = rapid.SampledFrom([]string{"root", "dave", "alice", "alice", "bob", "bob"}).Draw(t, "caller")
 		o.Bypass = rapid.Bool().Draw(t, "bypass")
 		o.Mode = rapid.SampledFrom([]string{"GOVERNANCE", "COMPLIANCE"}).Draw(t, "mode")
